@@ -69,6 +69,8 @@ def model_request(kind, p):
         a = p["algo"]
         keep = 0 if p["out"] in SUMS_ONLY_OUT else 1
         if a == "bc":
+            if "ids" in p:      # named items: value-level search, then the names are put back (Model/BinCompletionNamed.v)
+                return ("bcn", [keep, p["C"], 200000, p["ids"], p["vals"]])
             return ("bc", [keep, p["C"], 200000, p["vals"]])
         return (a, [keep, p["C"], ids_of(p), p["vals"]])
     if kind == "direct":       # algorithm called with a binner
@@ -158,14 +160,6 @@ def norm_model(kind, p, r):
         if a == "cbldm":
             b = r[0]
             return {"bins": b} if b is not None else {"bins": "placeholder"}
-        if a == "bc" and "ids" in p and isinstance(r, list):
-            # the model of bin completion works on values; the repaired code puts the names back by taking, for each
-            # value in each bin in order, the first unused name with that value (zero-valued items are dropped)
-            names_of = {}
-            for i, v in zip(p["ids"], p["vals"]):
-                if v != 0:
-                    names_of.setdefault(v, []).append(i)
-            r = [[s, [names_of[v].pop(0) for v in l]] for s, l in r]
         return {"bins": r}
     if kind == "cg_clock":
         return {"best": r[0], "ticks": r[1], "first": r[2]}
